@@ -20,11 +20,12 @@ const (
 	WResetFailed                    // owned writer that failed another program, then Reset(buf)
 	WPooled                         // spec.NewMessageWriter / NewListWriter / NewValueWriter
 	WPooledBuffer                   // spec.New*WriterBuffer(buf) on a buffer that already holds garbage
+	WTinyBuffer                     // spec.NewWriterBuffer(buffer.NewBytes(nil)): every growth step of the buffer is taken
 	NumWriterModes
 )
 
 func (m WriterMode) String() string {
-	return [...]string{"fresh", "fresh-buffer", "reset", "reset-failed", "pooled", "pooled-dirty-buffer"}[m]
+	return [...]string{"fresh", "fresh-buffer", "reset", "reset-failed", "pooled", "pooled-dirty-buffer", "tiny-buffer"}[m]
 }
 
 // sink is the method set shared by FieldWriter, ListWriter and ValueWriter.
@@ -91,6 +92,13 @@ func (x *Exec) Run(root *Node, mode WriterMode) ([]byte, error) {
 		return b, err
 	case WFreshBuffer:
 		w := spec.NewWriterBuffer(buffer.New())
+		b, err := x.root(w, root)
+		if err == nil {
+			w.Free()
+		}
+		return b, err
+	case WTinyBuffer:
+		w := spec.NewWriterBuffer(buffer.NewBytes(nil))
 		b, err := x.root(w, root)
 		if err == nil {
 			w.Free()
@@ -432,4 +440,42 @@ func (x *Exec) mergeSource(n *Node) (spec.Message, error) {
 		return spec.Message{}, err
 	}
 	return spec.OpenMessageErr(b)
+}
+
+// GrowShapes is the number of shapes of GrowShape.
+const GrowShapes = 1161
+
+// GrowShape returns the i-th shape of the buffer-growth sweep: containers whose table, size bytes or
+// nested end fall on every alignment relative to the writer buffer's growth steps (the default
+// buffer starts small; a container's table is written after its body, possibly into a reallocated
+// buffer).
+func GrowShape(i int) *Node {
+	small := func(k int) *Node { return Scalar(KInt32, uint64(k%50)) }
+	str := func(n int) *Node {
+		b := make([]byte, n)
+		for j := range b {
+			b[j] = 'a' + byte(j%26)
+		}
+		return Blob(KString, b)
+	}
+	switch {
+	case i <= 150: // root list of i small ints
+		n := &Node{Kind: KList}
+		for k := 0; k < i; k++ {
+			n.Elems = append(n.Elems, small(k))
+		}
+		return n
+	case i <= 460: // a one-element list after a string of every length
+		return Msg(F(1, str(i-151)), F(2, List(small(i))))
+	case i <= 540: // root message of k int fields
+		n := &Node{Kind: KMessage}
+		for k := 0; k < i-461; k++ {
+			n.Fields = append(n.Fields, F(uint16(k+1), small(k)))
+		}
+		return n
+	case i <= 850: // nested list closing after a string of every length
+		return List(str(i-541), List(small(i), small(i+1)))
+	default: // nested message closing after bytes of every length
+		return Msg(F(1, Blob(KBytes, []byte(str(i-851).B))), F(2, Msg(F(1, small(i)))))
+	}
 }
